@@ -225,7 +225,11 @@ func drawC18Subject(t *rapid.T) c18Subject {
 		if p == P1 {
 			m.Profile = sp(P1Name)
 		}
-		c, err := buildExt(m, drawOptInt(t, "ts"))
+		ets := drawOptInt(t, "ts")
+		if extRuleBroken(ets) {
+			*ets = 14
+		}
+		c, err := buildExt(m, ets)
 		if err != nil {
 			t.Fatalf("VERIF-INFRA: %v", err)
 		}
